@@ -93,3 +93,16 @@ theorem C10_bitsFromH (left right h : Rat) (hlr : left < right) (hh : 0 < h) (hh
   bitsFromH_spec left right h hlr hh hh'
 
 end TFV.Gray
+
+namespace TFV.Gray
+
+/-- C13 (trained weights): a weight decoded from ANY 16-bit Gray string over [-10, 10] — the
+    encoding `train_net_weights` uses for the binary-coded weight optimizers — lies in [-10, 10] -/
+theorem C13_weights_gray_in_box (bs : List Bool) (hl : bs.length = 16) :
+    let v : Var := { left := -10, right := 10, bits := 16 }
+    (-10 : Rat) ≤ v.decode true bs ∧ v.decode true bs ≤ 10 := by
+  intro v
+  have hv : v.WF := ⟨by decide, by decide⟩
+  exact (C10_endpoints v hv true).2.2 bs hl
+
+end TFV.Gray
